@@ -6,10 +6,11 @@ Statements are about `BytomModel.Codec` (Model/Codec.lean), the executable model
 check. `H` is the hash used for issuance asset ids (SHA3-256 in the code); the theorems
 hold for every `H` with 32-byte output.
 
-The code AS IT IS writes a non-empty spend/veto commitment suffix twice
-(`SpendCommitment.writeContents` + `WriteExtensibleString`), so the full statement is
-refuted (`tx_roundtrip_full_refuted`); `tx_decode_encode` states exactly what decoding an
-encoding yields, and `tx_roundtrip` is the property for every value without such a suffix.
+History: until /repo commit 16cb6449 a non-empty spend/veto commitment suffix was written twice
+and the full statement was refuted here (finding C04-SC-SUFFIX); the code now writes it once,
+`tx_roundtrip_full` is proved for every well-formed transaction and the former witness is an
+`example` that satisfies it. An input whose asset version is not 1 is rejected by the decoder
+since c7687229, so well-formed inputs are the typed ones (asset version 1).
 -/
 import BytomModel.Lemmas.CodecRT
 
@@ -41,87 +42,54 @@ theorem hex_roundtrip (bs : Bytes) : hexDecode (hexEncode bs) = some bs := hexDe
 
 /-! ### inputs and outputs -/
 
-/-- decoding the encoding of a well-formed input returns it, with a spend/veto commitment
-    suffix doubled (the code as it is) -/
-theorem input_decode_encode (H : Bytes → Bytes) (hH : Hash32 H) (i : TxInput) (h : WFInput H i) (r : Bytes) :
-    (decInput H (encInput H i ++ r)).out = .ok (dblInput i) r := decInput_enc H hH i h r
+/-- decoding the encoding of a well-formed input returns it exactly — spend / veto commitment
+    suffix, commitment suffix and witness suffix included -/
+theorem input_roundtrip (H : Bytes → Bytes) (hH : Hash32 H) (i : TxInput) (h : WFInput H i) (r : Bytes) :
+    (decInput H (encInput H i ++ r)).out = .ok i r := decInput_enc H hH i h r
 
-/-- no spend/veto input of the transaction carries a commitment suffix -/
-def NoSCSuffix (tx : TxData) : Prop :=
-  ∀ i ∈ tx.inputs, match i.typed with
-    | some (.spend _ suf _) => suf = []
-    | some (.veto _ suf _ _) => suf = []
-    | _ => True
-
-theorem dblInput_id (i : TxInput) (h : match i.typed with
-    | some (.spend _ suf _) => suf = []
-    | some (.veto _ suf _ _) => suf = []
-    | _ => True) : dblInput i = i := by
-  obtain ⟨av, typed, cs, ws⟩ := i
-  unfold dblInput
-  cases typed with
-  | none => rfl
-  | some t =>
-    cases t with
-    | issuance => rfl
-    | coinbase => rfl
-    | spend sc suf args => simp only at h; subst h; rfl
-    | veto sc suf vote args => simp only at h; subst h; rfl
+/-- the spend commitment with an arbitrary suffix -/
+theorem spendCommitment_roundtrip (sc : SpendCommitment) (suf : Bytes) (h : WFSC sc)
+    (hl : (encSCFields sc ++ suf).length ≤ max31) (r : Bytes) :
+    (decSC (encSC sc suf ++ r)).out = .ok (sc, suf) r := decSC_enc sc suf h hl r
 
 theorem output_roundtrip (o : TxOutput) (h : WFOutput o) (r : Bytes) :
     (decOutput (encOutput o ++ r)).out = .ok o r := decOutput_enc o h r
 
 /-! ### transactions -/
 
-/-- what the code does today, for every well-formed transaction -/
-theorem tx_decode_encode (H : Bytes → Bytes) (hH : Hash32 H) (tx : TxData) (h : WFTx H tx) (r : Bytes) :
-    (decTx H (encTx H tx ++ r)).out = .ok (canonTx H tx) r := decTx_enc H hH tx h r
+/-- **C04 for transactions, at full strength**: for every hash function with 32-byte digests,
+    every well-formed transaction and any trailing bytes, the encoding decodes to the same
+    value with the recorded size equal to the encoded length, leaving the trailing bytes unread -/
+theorem tx_roundtrip_full (H : Bytes → Bytes) (hH : Hash32 H) (tx : TxData) (h : WFTx H tx) (r : Bytes) :
+    (decTx H (encTx H tx ++ r)).out = .ok { tx with serializedSize := (encTx H tx).length } r :=
+  decTx_enc H hH tx h r
 
 /-- the recorded serialized size of a decoded transaction is the length of its encoding -/
 theorem tx_serialized_size (H : Bytes → Bytes) (hH : Hash32 H) (tx : TxData) (h : WFTx H tx) (r : Bytes) :
     ∃ tx', (decTx H (encTx H tx ++ r)).out = .ok tx' r ∧ tx'.serializedSize = (encTx H tx).length :=
   ⟨canonTx H tx, decTx_enc H hH tx h r, rfl⟩
 
-theorem canonTx_of_noSuffix (H : Bytes → Bytes) (tx : TxData) (hs : NoSCSuffix tx) :
-    canonTx H tx = { tx with serializedSize := (encTx H tx).length } := by
-  unfold canonTx
-  congr 1
-  have : ∀ l : List TxInput, (∀ i ∈ l, dblInput i = i) → l.map dblInput = l := by
-    intro l hl
-    induction l with
-    | nil => rfl
-    | cons a l ih =>
-      simp only [List.map_cons]
-      rw [hl a (by simp), ih (fun i hi => hl i (by simp [hi]))]
-  exact this _ (fun i hi => dblInput_id i (hs i hi))
-
-/-- C04 for transactions (partial: no spend/veto commitment suffix): the encoding decodes to
-    the same value with the recorded size equal to the encoded length, leaving `r` unread -/
-theorem tx_roundtrip (H : Bytes → Bytes) (hH : Hash32 H) (tx : TxData) (h : WFTx H tx) (hs : NoSCSuffix tx) (r : Bytes) :
-    (decTx H (encTx H tx ++ r)).out = .ok { tx with serializedSize := (encTx H tx).length } r := by
-  rw [decTx_enc H hH tx h r, canonTx_of_noSuffix H tx hs]
-
 /-- exact equality when the value already records its size (any decoded value does) -/
-theorem tx_roundtrip_exact (H : Bytes → Bytes) (hH : Hash32 H) (tx : TxData) (h : WFTx H tx) (hs : NoSCSuffix tx)
+theorem tx_roundtrip_exact (H : Bytes → Bytes) (hH : Hash32 H) (tx : TxData) (h : WFTx H tx)
     (hsize : tx.serializedSize = (encTx H tx).length) :
     (decTx H (encTx H tx)).out = .ok tx [] := by
-  have := tx_roundtrip H hH tx h hs []
+  have := tx_roundtrip_full H hH tx h []
   rw [List.append_nil] at this
   rw [this, ← hsize]
 
 /-- text form: `TxData.UnmarshalText (TxData.MarshalText tx)` -/
-theorem tx_text_roundtrip (H : Bytes → Bytes) (hH : Hash32 H) (tx : TxData) (h : WFTx H tx) (hs : NoSCSuffix tx) :
+theorem tx_text_roundtrip (H : Bytes → Bytes) (hH : Hash32 H) (tx : TxData) (h : WFTx H tx) :
     (txDataFromText H (txToText H tx)).out = .ok { tx with serializedSize := (encTx H tx).length } [] := by
   unfold txDataFromText txToText
   rw [fromText_hex]
-  have := tx_roundtrip H hH tx h hs []
+  have := tx_roundtrip_full H hH tx h []
   rw [List.append_nil] at this
   rw [bind_ok this]
   rfl
 
-/-- text form through `Tx.UnmarshalText` (which also runs `MapTx`) for fully typed inputs -/
-theorem tx_text_roundtrip_mapped (H : Bytes → Bytes) (hH : Hash32 H) (tx : TxData) (h : WFTx H tx) (hs : NoSCSuffix tx)
-    (ht : AllTyped tx) :
+/-- text form through `Tx.UnmarshalText`, which also runs `MapTx` (no panic: every
+    well-formed input is typed) -/
+theorem tx_text_roundtrip_mapped (H : Bytes → Bytes) (hH : Hash32 H) (tx : TxData) (h : WFTx H tx) :
     (txFromText H (txToText H tx)).out = .ok { tx with serializedSize := (encTx H tx).length } [] := by
   unfold txFromText txToText
   rw [fromText_hex]
@@ -132,19 +100,14 @@ theorem tx_text_roundtrip_mapped (H : Bytes → Bytes) (hH : Hash32 H) (tx : TxD
   rw [bind_ok h2]
   have h3 : (mapTxD (canonTx H tx) []).out = .ok () [] := by
     unfold mapTxD
-    rw [mapTxPanics_canon H tx ht]
+    rw [mapTxPanics_canon H tx h.allTyped]
     rfl
-  rw [bind_ok h3, canonTx_of_noSuffix H tx hs]
+  rw [bind_ok h3]
   rfl
-
-/-- the property at full strength, for transactions -/
-def tx_roundtrip_full : Prop :=
-  ∀ (H : Bytes → Bytes), Hash32 H → ∀ tx, WFTx H tx → ∀ r,
-    (decTx H (encTx H tx ++ r)).out = .ok { tx with serializedSize := (encTx H tx).length } r
 
 def H0 : Bytes → Bytes := fun _ => zeroHash
 
-/-- witness of the known finding: one spend input whose commitment suffix is `aa` -/
+/-- the witness of the former finding C04-SC-SUFFIX: one spend input whose commitment suffix is `aa` -/
 def witnessSC : SpendCommitment := ⟨zeroHash, zeroHash, 5, 0, 1, [0x51], []⟩
 def witnessTx : TxData :=
   ⟨1, 0, 0, [⟨1, some (.spend witnessSC [0xaa] []), [], []⟩], []⟩
@@ -154,20 +117,14 @@ theorem witnessTx_wf : WFTx H0 witnessTx := by
   · intro i hi
     simp only [witnessTx, List.mem_singleton] at hi
     subst hi
-    refine ⟨by decide, ?_⟩
     exact ⟨rfl, ⟨⟨by decide, by decide, by decide, by decide, rfl, by decide, ⟨by decide, by intro s hs; simp [witnessSC] at hs⟩⟩, by decide, ⟨by decide, by intro s hs; simp at hs⟩⟩, by decide, by decide⟩
   · intro o ho
     simp [witnessTx] at ho
 
-theorem tx_roundtrip_full_refuted : ¬ tx_roundtrip_full := by
-  intro hfull
-  have h1 := hfull H0 (fun _ => rfl) witnessTx witnessTx_wf []
-  rw [decTx_enc H0 (fun _ => rfl) witnessTx witnessTx_wf []] at h1
-  have h2 : canonTx H0 witnessTx = { witnessTx with serializedSize := (encTx H0 witnessTx).length } := by
-    injection h1
-  have h3 := congrArg TxData.inputs h2
-  revert h3
-  decide
+/-- … now round-trips: the decoded suffix is `aa`, not `aaaa` -/
+example : (decTx H0 (encTx H0 witnessTx)).out = .ok { witnessTx with serializedSize := (encTx H0 witnessTx).length } [] := by
+  have := tx_roundtrip_full H0 (fun _ => rfl) witnessTx witnessTx_wf []
+  rwa [List.append_nil] at this
 
 /-! ### headers and blocks -/
 
@@ -185,15 +142,10 @@ theorem header_text_roundtrip (h : BlockHeader) (wf : WFHeader h) :
   rfl
 
 /-- full serialisation (`SerBlockFull`): header and every transaction come back -/
-theorem block_roundtrip_full (H : Bytes → Bytes) (hH : Hash32 H) (b : Block) (wf : WFBlock H b)
-    (hs : ∀ t ∈ b.txs, NoSCSuffix t) (r : Bytes) :
+theorem block_roundtrip_full (H : Bytes → Bytes) (hH : Hash32 H) (b : Block) (wf : WFBlock H b) (r : Bytes) :
     (decBlock H (encBlock H 3 b ++ r)).out =
-      .ok (3, ⟨b.header, b.txs.map (fun t => { t with serializedSize := (encTx H t).length })⟩) r := by
-  rw [decBlock_enc3 H hH b wf r]
-  congr 3
-  apply List.map_congr_left
-  intro t ht
-  exact canonTx_of_noSuffix H t (hs t ht)
+      .ok (3, ⟨b.header, b.txs.map (fun t => { t with serializedSize := (encTx H t).length })⟩) r :=
+  decBlock_enc3 H hH b wf r
 
 /-- header-only serialisation (`SerBlockHeader`): the header comes back, no transactions -/
 theorem block_roundtrip_headerOnly (H : Bytes → Bytes) (b : Block) (wf : WFHeader b.header) (r : Bytes) :
@@ -202,23 +154,18 @@ theorem block_roundtrip_headerOnly (H : Bytes → Bytes) (b : Block) (wf : WFHea
 /-- transactions-only serialisation (`SerBlockTransactions`): the transactions come back
     under a zero header -/
 theorem block_roundtrip_txsOnly (H : Bytes → Bytes) (hH : Hash32 H) (b : Block) (hn : b.txs.length ≤ max31)
-    (wf : ∀ t ∈ b.txs, WFTx H t ∧ AllTyped t) (hs : ∀ t ∈ b.txs, NoSCSuffix t) (r : Bytes) :
+    (wf : ∀ t ∈ b.txs, WFTx H t) (r : Bytes) :
     (decBlock H (encBlock H 2 b ++ r)).out =
-      .ok (2, ⟨BlockHeader.zero, b.txs.map (fun t => { t with serializedSize := (encTx H t).length })⟩) r := by
-  rw [decBlock_enc2 H hH b hn wf r]
-  congr 3
-  apply List.map_congr_left
-  intro t ht
-  exact canonTx_of_noSuffix H t (hs t ht)
+      .ok (2, ⟨BlockHeader.zero, b.txs.map (fun t => { t with serializedSize := (encTx H t).length })⟩) r :=
+  decBlock_enc2 H hH b hn wf r
 
 /-- `Block.UnmarshalText (Block.MarshalText b)` -/
-theorem block_text_roundtrip (H : Bytes → Bytes) (hH : Hash32 H) (b : Block) (wf : WFBlock H b)
-    (hs : ∀ t ∈ b.txs, NoSCSuffix t) :
+theorem block_text_roundtrip (H : Bytes → Bytes) (hH : Hash32 H) (b : Block) (wf : WFBlock H b) :
     (blockFromText H (blockToText H 3 b)).out =
       .ok (3, ⟨b.header, b.txs.map (fun t => { t with serializedSize := (encTx H t).length })⟩) [] := by
   unfold blockFromText blockFromTextWith blockToText
   rw [fromText_hex]
-  have := block_roundtrip_full H hH b wf hs []
+  have := block_roundtrip_full H hH b wf []
   rw [List.append_nil] at this
   unfold decBlock at this
   rw [bind_ok this]
@@ -234,11 +181,11 @@ theorem wfList_one : WFList [[1, 2]] := ⟨by decide, by decide⟩
 def exSC : SpendCommitment := ⟨zeroHash, zeroHash, 5, 1, 1, [0x51], [[1, 2]]⟩
 theorem exSC_wf : WFSC exSC := ⟨by decide, by decide, by decide, by decide, rfl, by decide, wfList_one⟩
 
-/-- all four input kinds, input suffix bytes, a vote output with state data, a retirement output -/
+/-- all four input kinds, a spend commitment suffix, input suffix bytes, a vote output with state data, a retirement output -/
 def exTx : TxData :=
   ⟨1, 0, 7,
    [⟨1, some (.issuance [9] 100 [1, 2, 3] 1 [0x51] [[1, 2]]), [0xee], []⟩,
-    ⟨1, some (.spend exSC [] [[1, 2]]), [], [0xdd, 0xcc]⟩,
+    ⟨1, some (.spend exSC [0xaa, 0xbb] [[1, 2]]), [], [0xdd, 0xcc]⟩,
     ⟨1, some (.coinbase [0xc0]), [], []⟩,
     ⟨1, some (.veto exSC [] [4, 4] []), [], []⟩],
    [⟨1, some ⟨zeroHash, 5, 1, [0x51], [[1, 2]]⟩, [0xab], .vote [7, 7]⟩,
@@ -249,24 +196,15 @@ example : WFTx H0 exTx := by
   · intro i hi
     simp only [exTx, List.mem_cons, List.not_mem_nil, or_false] at hi
     rcases hi with rfl | rfl | rfl | rfl
-    · exact ⟨by decide, rfl, ⟨by decide, by decide, by decide, by decide, by decide, wfList_one⟩, by decide, by decide⟩
-    · exact ⟨by decide, rfl, ⟨exSC_wf, by decide, wfList_one⟩, by decide, by decide⟩
-    · exact ⟨by decide, rfl, (by show ([0xc0] : Bytes).length ≤ max31; decide), by decide, by decide⟩
-    · exact ⟨by decide, rfl, ⟨exSC_wf, by decide, by decide, wfList_nil⟩, by decide, by decide⟩
+    · exact ⟨rfl, ⟨by decide, by decide, by decide, by decide, by decide, wfList_one⟩, by decide, by decide⟩
+    · exact ⟨rfl, ⟨exSC_wf, by decide, wfList_one⟩, by decide, by decide⟩
+    · exact ⟨rfl, (by show ([0xc0] : Bytes).length ≤ max31; decide), by decide, by decide⟩
+    · exact ⟨rfl, ⟨exSC_wf, by decide, by decide, wfList_nil⟩, by decide, by decide⟩
   · intro o ho
     simp only [exTx, List.mem_cons, List.not_mem_nil, or_false] at ho
     rcases ho with rfl | rfl
     · exact ⟨by decide, (by show ([7, 7] : Bytes).length ≤ max31; decide), by decide, rfl, ⟨by decide, by decide, rfl, by decide, wfList_one⟩⟩
     · exact ⟨by decide, trivial, by decide, rfl, ⟨by decide, by decide, rfl, by decide, wfList_nil⟩⟩
-
-example : NoSCSuffix exTx := by
-  intro i hi
-  simp only [exTx, List.mem_cons, List.not_mem_nil, or_false] at hi
-  rcases hi with rfl | rfl | rfl | rfl <;> simp [exSC]
-example : AllTyped exTx := by
-  intro i hi
-  simp only [exTx, List.mem_cons, List.not_mem_nil, or_false] at hi
-  rcases hi with rfl | rfl | rfl | rfl <;> rfl
 
 /-- a header with a suplink carrying sparse signatures -/
 def exHeader : BlockHeader :=
